@@ -33,8 +33,10 @@ RULE = (
     "bitwise equal to the first-occurring member, ordered by first occurrence, new_2_old / old_2_new exact; "
     "fracs.utils.uniquify_points additionally maps edges and deletes point edges; intersect_sets on members split "
     "into two sets = same-cluster relation. (uniquify_int) integer columns, tol < 0.5 = first-occurrence unique "
-    "columns. (ismember) integer column sets, 1-d or 2-d, sort on/off = Python set membership, returned indices "
-    "point at an equal column of b. (intersect_int) integer columns, tol in {1e-10,.1,.5,1.2,1.5} = brute-force "
+    "columns. (ismember) column sets with 1..4 rows (or 1-d arrays), int64 / int32 / float64 (halves), value domains "
+    "{0..3}, {-4..4}, {-5..-1}, anchors up to +-1e9, +-2^31, 2^40, +-2^62 with offsets; b mixes fresh columns with "
+    "near-collisions of columns of a (copy, row rotation / swap, one row +-1, one row negated), sort on/off = Python "
+    "set membership on exact integers, returned indices point at an equal column of b. (intersect_int) integer columns (per-row shift in {0,-1000,1e6,+-1e9}), tol in {1e-10,.1,.5,1.2,1.5} = brute-force "
     "distance comparison. Non-trivial = at least 2 points and (>= 2 clusters or a cluster with >= 2 members) / at "
     "least 2 columns on each side; distinct = hash of spec."
 )
@@ -45,19 +47,24 @@ LEVEL_TEXT = ("Exploration: thousands of generated clustered point sets per run 
               "the partition known by construction; integer column sets compared with Python set membership and "
               "brute-force distances.")
 LEVEL_NOTE = ("Clusters are far apart (>= 10 tol) and tight (<= tol/57), so the expected partition is unambiguous; "
-              "point sets up to 24 points, dimension <= 3. Ambiguous configurations (chains of points each within tol "
+              "point sets up to 24 points, dimension <= 3; membership column sets up to 7 x 7 columns, 1..4 rows, values over "
+              "the int32 / int64 range (float columns hold exactly representable halves). Ambiguous configurations (chains of points each within tol "
               "of the next) are outside the property. Finds violations, does not prove absence.")
 DESIGN_REF = "DESIGN.md section 4, C34"
 ASSUMPTIONS = [
     "clusters have diameter <= tol/57 and mutual distance >= 10 tol (checked by the harness on every case)",
     "ismember_columns / intersect_sets are called with non-empty a (b may be empty for intersect_sets, as SparseNdArray does)",
     "intersect_sets tolerances are never within rounding of an attainable distance",
+    "ismember_columns: a and b share one dtype (int64 as annotated, int32, or float64 with exactly representable values)",
 ]
 FNS = ["uniquify", "uniquify_points", "uniquify_int", "ismember", "intersect_int", "intersect_float"]
 REQUIRED = {f: 0.08 for f in FNS}
 REQUIRED.update({"close-norms": 0.15, "interleaved": 0.15, "dim1": 0.05, "dim2": 0.1, "dim3": 0.1,
                  "first-not-smallest-norm": 0.05, "ismember-sort": 0.03, "ismember-nosort": 0.03,
-                 "ismember-1d": 0.01, "equal-norm-clusters": 0.08, "separation-below-sqrt-tol": 0.04})
+                 "ismember-1d": 0.01, "equal-norm-clusters": 0.08, "separation-below-sqrt-tol": 0.04,
+                 "ismember-negative-ints": 0.03, "ismember-mixed-sign": 0.02, "ismember-near-collision": 0.03,
+                 "ismember-all-negative": 0.005, "ismember-large-magnitude": 0.01, "ismember-int32": 0.01,
+                 "ismember-negative-floats": 0.003})
 
 TOLS = [1e-8, 1e-6, 1e-4, 1e-3, 1e-2]
 A_NEAR = [0.0, 0.0, 0.3, 0.9, 0.995, 1.0, 1.0, 1.0, 1.005, 1.1, 1.9, 2.0, 2.0, 2.1]
@@ -134,6 +141,53 @@ def _int_cols(draw, nd, lo, hi, min_size, max_size):
     return draw(st.lists(st.lists(st.integers(lo, hi), min_size=nd, max_size=nd), min_size=min_size, max_size=max_size))
 
 
+ANCHORS = {
+    "int64": [0, 10 ** 9, -10 ** 9, 2 ** 31 - 1, -2 ** 31, 2 ** 31, 2 ** 40, -2 ** 40, 2 ** 62, -2 ** 62],
+    "int32": [0, 10 ** 9, -10 ** 9, 2 ** 31 - 8, -2 ** 31 + 8],
+    "float": [0, 10 ** 9, -10 ** 9, 2 ** 40],  # stored as value / 2, exact in float64
+}
+
+
+@st.composite
+def _ismember_spec(draw):
+    """Integer (int64 / int32) or float column sets over several value domains; b mixes fresh columns with
+    near-collisions of columns of a (copy, row rotation, row swap, one row bumped by +-1, one row negated)."""
+    oned = draw(st.sampled_from([False, False, False, False, True]))
+    nd = 1 if oned else draw(st.sampled_from([1, 2, 2, 3, 3, 4]))
+    dtype = draw(st.sampled_from(["int64", "int64", "int64", "int32", "float"]))
+    domain = draw(st.sampled_from(["small", "signed", "signed", "negative", "wide"]))
+    if domain == "small":
+        elem = st.integers(0, 3)
+    elif domain == "signed":
+        elem = st.integers(-4, 4)
+    elif domain == "negative":
+        elem = st.integers(-5, -1)
+    else:
+        elem = st.tuples(st.sampled_from(ANCHORS[dtype]), st.integers(-2, 2)).map(lambda t: t[0] + t[1])
+    col = st.lists(elem, min_size=nd, max_size=nd)
+    a = draw(st.lists(col, min_size=1, max_size=7))
+    b = []
+    for _ in range(draw(st.integers(1, 7))):
+        kind = draw(st.sampled_from(["fresh", "fresh", "copy", "rotate", "swap", "bump", "negate"]))
+        if kind == "fresh":
+            b.append(draw(col))
+            continue
+        c = list(a[draw(st.integers(0, len(a) - 1))])
+        r = draw(st.integers(0, nd - 1))
+        if kind == "rotate":
+            c = c[1:] + c[:1]
+        elif kind == "swap":
+            r2 = draw(st.integers(0, nd - 1))
+            c[r], c[r2] = c[r2], c[r]
+        elif kind == "bump":
+            c[r] += draw(st.sampled_from([1, -1]))
+        elif kind == "negate":
+            c[r] = -c[r]
+        b.append(c)
+    return {"nd": nd, "oned": oned, "sort": draw(st.sampled_from([True, False, True])), "a": a, "b": b, "dtype": dtype,
+            "domain": domain}
+
+
 @st.composite
 def _spec(draw):
     fn = draw(st.sampled_from(FNS + ["uniquify", "uniquify"]))
@@ -157,15 +211,14 @@ def _spec(draw):
         s = {"dim": dim, "tol": draw(st.sampled_from([1e-8, 1e-3, 0.1, 0.4])),
              "pts": draw(_int_cols(dim, -2, 2, 1, 10)), "dtype": draw(st.sampled_from(["float", "float", "int"]))}
     elif fn == "ismember":
-        oned = draw(st.sampled_from([False, False, False, True]))
-        nd = 1 if oned else draw(st.integers(1, 3))
-        s = {"nd": nd, "oned": oned, "sort": draw(st.booleans()),
-             "a": draw(_int_cols(nd, 0, 3, 1, 7)), "b": draw(_int_cols(nd, 0, 3, 1, 7))}
+        s = draw(_ismember_spec())
     else:  # intersect_int
         nd = draw(st.integers(1, 3))
+        shift = [draw(st.sampled_from([0, 0, -1000, 10 ** 6, -10 ** 9, 10 ** 9])) for _ in range(nd)]
+        add = lambda cols: [[x + h for x, h in zip(c, shift)] for c in cols]  # noqa: E731
         s = {"nd": nd, "tol": draw(st.sampled_from([1e-10, 0.1, 0.5, 1.2, 1.5])),
              "oned": nd == 1 and draw(st.booleans()),
-             "a": draw(_int_cols(nd, -1, 2, 1, 6)), "b": draw(_int_cols(nd, -1, 2, 0, 6)),
+             "a": add(draw(_int_cols(nd, -1, 2, 1, 6))), "b": add(draw(_int_cols(nd, -1, 2, 0, 6))),
              "dtype": draw(st.sampled_from(["float", "int"]))}
         if s["oned"] and not s["b"]:
             s["oned"] = False
@@ -361,14 +414,32 @@ def check(s):
         nontrivial = len(cols) >= 2
     elif fn == "ismember":
         a_cols, b_cols = s["a"], s["b"]
+        dname = s.get("dtype", "int64")
+        dt = {"int64": np.int64, "int32": np.int32, "float": np.float64}[dname]
+        scale = 0.5 if dname == "float" else 1  # float columns hold halves: exact in float64
+
+        def arr(cols):
+            if s["oned"]:
+                v = np.array([c[0] for c in cols], dtype=np.int64)
+            else:
+                v = np.array(cols, dtype=np.int64).T.reshape(s["nd"], len(cols))
+            return (v * scale).astype(dt) if dname == "float" else v.astype(dt)
+
+        a, b = arr(a_cols), arr(b_cols)
         if s["oned"]:
-            a = np.array([c[0] for c in a_cols], dtype=np.int64)
-            b = np.array([c[0] for c in b_cols], dtype=np.int64)
             labels.append("ismember-1d")
-        else:
-            a = np.array(a_cols, dtype=np.int64).T.reshape(s["nd"], len(a_cols))
-            b = np.array(b_cols, dtype=np.int64).T.reshape(s["nd"], len(b_cols))
         labels.append("ismember-sort" if s["sort"] else "ismember-nosort")
+        labels.append("ismember-" + dname)
+        labels.append(f"ismember-rows{s['nd']}")
+        flat = [x for c in a_cols + b_cols for x in c]
+        if min(flat) < 0:
+            labels.append("ismember-negative-ints" if dname != "float" else "ismember-negative-floats")
+            if max(flat) > 0:
+                labels.append("ismember-mixed-sign")
+            if max(flat) < 0:
+                labels.append("ismember-all-negative")
+        if max(abs(x) for x in flat) >= 10 ** 9 - 2:
+            labels.append("ismember-large-magnitude")
         a0, b0 = a.copy(), b.copy()
         ismem, ind = ao.ismember_columns(a, b, sort=s["sort"])
         require(np.array_equal(a, a0) and np.array_equal(b, b0), "ismember-input-mutated", "inputs changed")
@@ -383,6 +454,14 @@ def check(s):
         for k, j in zip(hits, ind.tolist()):
             require(0 <= j < len(kb) and kb[j] == k, "ismember-index",
                     f"ismember_columns(a={a_cols}, b={b_cols}, sort={s['sort']}): index {j} does not point at a twin of {k}")
+        near = False
+        for ca, k1 in zip(a_cols, ka):
+            for cb, k2 in zip(b_cols, kb):
+                if k1 != k2 and (sum(x != y for x, y in zip(ca, cb)) == 1 or sorted(ca) == sorted(cb)
+                                 or (len(ca) > 1 and sum(ca) == sum(cb))):
+                    near = True
+        if near:
+            labels.append("ismember-near-collision")
         if len(set(kb)) < len(kb):
             labels.append("ismember-dup-b")
         if exp_mem.any() and not exp_mem.all():
